@@ -194,7 +194,15 @@ func New(conf Config) (s *StatsCtx, err error) {
 		return nil, fmt.Errorf("opening a transaction: %w", err)
 	}
 
-	deleted := s.deleteOldUnits(tx, id-uint32(s.limit.Hours())-1)
+	// Make sure that the subtraction doesn't wrap around when the current ID
+	// is less than the limit, since otherwise every unit in the database,
+	// including the ones within the limit, is considered old and is deleted.
+	var firstID uint32
+	if limit := uint32(s.limit.Hours()); id > limit {
+		firstID = id - limit - 1
+	}
+
+	deleted := s.deleteOldUnits(tx, firstID)
 	udb = s.loadUnitFromDB(tx, id)
 
 	err = finishTxn(tx, deleted > 0)
